@@ -42,8 +42,10 @@ type Behaviour struct {
 	CloseFail bool `json:"close_fail,omitempty"`
 	// a RUN-time deployment whose connection is broken from the first write on (as testdeployer's disable_plugin_writes): the
 	// step deploys and then fails in its STARTING stage; its plugin never executes
-	StartFail bool           `json:"start_fail,omitempty"`
-	Data      map[string]any `json:"data"` // overrides of the produced output fields
+	StartFail bool `json:"start_fail,omitempty"`
+	// while the schema is probed (Prepare), the temporary deployment takes this long and does not watch its context
+	ProbeDelayMs int            `json:"probe_delay_ms,omitempty"`
+	Data         map[string]any `json:"data"` // overrides of the produced output fields
 }
 
 // LogEntry is one observation of the plugin side.
@@ -345,6 +347,9 @@ func (c *sdConnector) Deploy(ctx context.Context, image string) (deployer.Plugin
 	}
 	b := s.get(image)
 	probing := s.probe.Load()
+	if probing && b.ProbeDelayMs > 0 {
+		time.Sleep(time.Duration(b.ProbeDelayMs) * time.Millisecond)
+	}
 	if b.DeployDelayMs > 0 && !probing && b.DeployIgnoresCtx {
 		time.Sleep(time.Duration(b.DeployDelayMs) * time.Millisecond)
 	} else if b.DeployDelayMs > 0 && !probing {
